@@ -339,6 +339,7 @@ func (p Prop) open(c *Case, s *sched.Sched) (*env.Env, *simpool.Pool, error) {
 	}
 	if s != nil {
 		o.Namer = simnamer.Namer{Yield: s.Yield}
+		o.Yield = s.Yield
 	} else {
 		o.Namer = simnamer.Namer{}
 	}
